@@ -117,16 +117,19 @@ Lookup(G, r) ==
       THEN [found |-> TRUE, node |-> r.c, number |-> G.num[r.c], head |-> TRUE]
     ELSE [found |-> FALSE, node |-> 0, number |-> 0, head |-> FALSE]
 
-\* Chain.updateExternal(final, external, roundTime, strict) -> TRUE when it returns nil.
+\* Chain.updateExternal(final, external, roundTime, strict): "ok" | "err" | "panic".
 \* early: roundTime is before the start of the referenced final round.
 \* The "too early against the best round" test needs final rounds more than 5 hours apart and is
 \* outside the explored time window - except for a head record, whose start is 0.
-ExternalOK(G, c, e, early, strict) ==
-    /\ e.node # c
-    /\ e.number >= G.ml[c][e.node]
-    /\ strict => /\ ~e.head       \* start 0: always "too early" against the best available round
-                 /\ ~early
-                 /\ ~(~G.has[e.node] /\ G.num[e.node] = e.number + 1 /\ e.number > 0)
+\* The code aborts when the durable link and ChainState.RoundLinks disagree.
+ExtCheck(G, c, e, early, strict) ==
+    IF e.node = c THEN "err"
+    ELSE IF e.number < G.ml[c][e.node] THEN "err"
+    ELSE IF G.dl[c][e.node] # G.ml[c][e.node] THEN "panic"
+    ELSE IF strict /\ ( \/ e.head       \* start 0: always "too early" against the best available round
+                       \/ early
+                       \/ (~G.has[e.node] /\ G.num[e.node] = e.number + 1 /\ e.number > 0) ) THEN "err"
+    ELSE "ok"
 
 SetExt(G, c, r, e) ==
     [G EXCEPT !.ext[c] = r, !.dl[c][e.node] = e.number, !.ml[c][e.node] = e.number]
@@ -134,18 +137,23 @@ SetExt(G, c, r, e) ==
 \* startNewRoundAndPersist(cache, references, timestamp, finalized)
 \*   o = [c, self, ext, early, fin]; self in {"good" (hash of the closed head round), "stale", "bogus"}
 \* result [res, dummy, G]
+\* An unknown external on the finalized path starts the round with the PREVIOUS external reference
+\* ("dummy"); storage.StartNewRound then rewrites the durable link from the record that reference
+\* resolves to now (the same number for a final round; the current head number for a head record).
 StartRound(G, o) ==
     LET c == o.c
         e == Lookup(G, o.ext)
-        fail == [res |-> "err", dummy |-> FALSE, G |-> G]
+        p == Lookup(G, G.ext[c])
+        fail(x) == [res |-> x, dummy |-> FALSE, G |-> G]
         adv(H) == [H EXCEPT !.num[c] = @ + 1, !.has[c] = FALSE]
+        x == ExtCheck(G, c, e, o.early, ~o.fin)
     IN
-    IF ~G.has[c] THEN fail                         \* nothing collected: asFinal() = nil
-    ELSE IF o.self # "good" THEN fail
+    IF ~G.has[c] THEN fail("err")                  \* nothing collected: asFinal() = nil
+    ELSE IF o.self # "good" THEN fail("err")
     ELSE IF ~e.found THEN
-         IF o.fin THEN [res |-> "ok", dummy |-> TRUE, G |-> adv(G)]     \* keeps the previous external
-         ELSE fail
-    ELSE IF ~ExternalOK(G, c, e, o.early, ~o.fin) THEN fail
+         IF o.fin THEN [res |-> "ok", dummy |-> TRUE, G |-> adv([G EXCEPT !.dl[c][p.node] = p.number])]
+         ELSE fail("err")
+    ELSE IF x # "ok" THEN fail(x)
     ELSE [res |-> "ok", dummy |-> FALSE, G |-> adv(SetExt(G, c, o.ext, e))]
 
 \* updateEmptyHeadRoundAndPersist(final, cache, references, timestamp, strict)
@@ -153,12 +161,13 @@ StartRound(G, o) ==
 UpdateHead(G, o) ==
     LET c == o.c
         e == Lookup(G, o.ext)
-        fail == [res |-> "err", dummy |-> FALSE, G |-> G]
+        fail(x) == [res |-> x, dummy |-> FALSE, G |-> G]
+        x == ExtCheck(G, c, e, o.early, o.strict)
     IN
-    IF G.has[c] THEN fail
-    ELSE IF o.self # "same" THEN fail
-    ELSE IF ~e.found THEN fail
-    ELSE IF ~ExternalOK(G, c, e, o.early, o.strict) THEN fail
+    IF G.has[c] THEN fail("err")
+    ELSE IF o.self # "same" THEN fail("err")
+    ELSE IF ~e.found THEN fail("err")
+    ELSE IF x # "ok" THEN fail(x)
     ELSE [res |-> "ok", dummy |-> FALSE, G |-> SetExt(G, c, o.ext, e)]
 
 \* a snapshot finalized into the head round (Chain.AddSnapshot)
@@ -208,7 +217,9 @@ StateOK20(G) ==
 (* a chain identifier is resolved to that chain's HEAD round record and is  *)
 (* accepted; the new head then references a round that is not final and the *)
 (* link is set to the head number.  Signature: the head's external          *)
-(* reference after the step is a chain identifier.                          *)
+(* reference after the step is a chain identifier.  (A later "dummy" start  *)
+(* re-resolves it and moves only the durable link, after which the durable  *)
+(* and in-memory links disagree and updateExternal aborts.)                 *)
 (***************************************************************************)
 KnownFinding_C20_1(G2, c) == G2.ext[c].k = "H"
 
